@@ -239,6 +239,30 @@ Example C05_example :
   (snd (bi_blocks_on wb 4 (Q 251 300 1)), snd (sec_blocks_on wb 3 (Q 251 300 1))) = ([7; 9], []).
 Proof. vm_compute. repeat split. Qed.
 
+(* ROUTE INDEPENDENCE at the byte-interval scope: two histories -- any two -- that arrive at the same nodes with the same attributes
+   and the same members in every collection give all four block lookups of every interval the same blocks (each exactly once, by
+   the theorems above), whatever the routes and whatever lookups were issued on the way. *)
+Definition same_structure (w1 w2 : world) : Prop :=
+  (forall n, nodes w1 n = nodes w2 n) /\ (forall p x, In x (kids w1 p) <-> In x (kids w2 p)).
+
+Theorem C05_route_independent : forall w1 k1 w2 k2 bi q, reachable_k w1 k1 -> reachable_k w2 k2 -> same_structure w1 w2 ->
+  kindof w1 bi = KBI ->
+  forall b,
+    (In b (snd (bi_blocks_on w1 bi q)) <-> In b (snd (bi_blocks_on w2 bi q))) /\
+    (In b (snd (bi_blocks_at w1 bi q)) <-> In b (snd (bi_blocks_at w2 bi q))) /\
+    (In b (snd (bi_blocks_on_off w1 bi q)) <-> In b (snd (bi_blocks_on_off w2 bi q))) /\
+    (In b (snd (bi_blocks_at_off w1 bi q)) <-> In b (snd (bi_blocks_at_off w2 bi q))).
+Proof.
+  intros w1 k1 w2 k2 bi q R1 R2 [HN HK] K1 b.
+  assert (G : forall x, getn w1 x = getn w2 x) by (intro x; unfold getn; rewrite HN; reflexivity).
+  assert (K2 : kindof w2 bi = KBI) by (unfold kindof in *; rewrite <- G; exact K1).
+  split; [|split; [|split]].
+  - rewrite (proj2 (C05_bi_blocks_on_exact w1 k1 bi q R1 K1) b), (proj2 (C05_bi_blocks_on_exact w2 k2 bi q R2 K2) b), HK, !G. reflexivity.
+  - rewrite (proj2 (C05_bi_blocks_at_exact w1 k1 bi q R1 K1) b), (proj2 (C05_bi_blocks_at_exact w2 k2 bi q R2 K2) b), HK, !G. reflexivity.
+  - rewrite (proj2 (C05_bi_blocks_on_offset_exact w1 k1 bi q R1 K1) b), (proj2 (C05_bi_blocks_on_offset_exact w2 k2 bi q R2 K2) b), HK, !G. reflexivity.
+  - rewrite (proj2 (C05_bi_blocks_at_offset_exact w1 k1 bi q R1 K1) b), (proj2 (C05_bi_blocks_at_offset_exact w2 k2 bi q R2 K2) b), HK, !G. reflexivity.
+Qed.
+
 Print Assumptions C05_on_criterion.
 Print Assumptions C05_bi_blocks_on_exact.
 Print Assumptions C05_bi_blocks_at_exact.
@@ -263,3 +287,4 @@ Print Assumptions C05_mod_blocks_at_envelope.
 Print Assumptions C05_ir_blocks_on_envelope.
 Print Assumptions C05_ir_blocks_at_envelope.
 Print Assumptions C05_example.
+Print Assumptions C05_route_independent.
